@@ -15,6 +15,7 @@ sys.path.insert(0, os.path.dirname(os.path.dirname(os.path.abspath(__file__))))
 from vf.common import *
 from vf import build as vbuild, proc
 from ref.script import *
+from checks import lockstep
 from ref import secp, sighash, taproot, sign as rsign, tx as rtx, verify, codec
 
 PROP = 'C06'
@@ -36,8 +37,11 @@ def mk_scripts(rng, n, sks):
             out.append(push_only(secp.xonly_from_sec(sks[i % len(sks)] + i)) + bytes([OP_CHECKSIG]))
         elif r < 0.85:
             out.append(bytes([OP_SHA256]) + push_only(sha256(bytes([i & 255, i >> 8]))) + bytes([OP_EQUAL]))
-        else:
+        elif r < 0.93 or n > 64:
             out.append(push_num(i) + bytes([OP_DROP, OP_1]))
+        else:
+            # a leaf longer than 520 bytes: tapscripts have no size limit (the 520-byte rule is for stack items, not for the script)
+            out.append(push_num(i) + bytes([OP_DROP]) + bytes([OP_NOP]) * rng.choice([517, 518, 519, 600, 2000]) + bytes([OP_1]))
     origin = list(range(n))
     if n >= 2 and rng.random() < 0.25:
         a, b = rng.randrange(n), rng.randrange(n)
@@ -102,6 +106,7 @@ def tree_case(job):
         txh, finh = rtx.ser_tx(tx).hex(), rtx.ser_tx(fund).hex()
         spent = [(amount, rsign.spk_p2tr(q))]
         outkeys = set()
+        dbg_cases, dbg_meta = [], {}
         for idx in idx_list:
             part.evaluations += 1
             wit = dict(wit0, index=idx)
@@ -156,6 +161,33 @@ def tree_case(job):
                 continue
             if w[1:-2] != ([bytes([origin[idx] & 255, origin[idx] >> 8])] if is_hashlock else []):
                 part.violation('spend-arguments-not-carried-into-witness', dict(wit, witness=[x.hex()[:40] for x in w]))
+                continue
+            # "... and are accepted by the debugger's own commitment check": the emitted transaction is loaded into a debugger
+            # session (native harness: parse, select, configure, set up) and the commitment phase is stepped
+            if n <= 32 or idx in idx_list[:4]:
+                dbg_cases.append(('t%d' % idx, ['N t%d' % idx, 'TX ' + m2.group(1).encode().hex(), 'TI %s -1' % finh.encode().hex(), 'CF', 'SU'] + ['S'] * ((len(control) - 33) // 32 + 1)))
+                dbg_meta['t%d' % idx] = (dict(wit, script_len=len(sc)), (len(control) - 33) // 32)
+        if dbg_cases:
+            events, crashes, hangs = run_harness_cases(bindir, dbg_cases, wd)
+            for cr in crashes:
+                part.violation('debugger-on-emitted-spend:crash:' + cr.key, dict(dbg_meta.get(cr.case_id, ({},))[0], log=cr.log[-1500:]))
+            for cid, _ in dbg_cases:
+                witd, m = dbg_meta[cid]
+                evs = lockstep.parse_events(events.get(cid, []))
+                if any(k == 'CRASH' for k, e in evs):
+                    continue
+                part.evaluations += 1
+                cf = [e for k, e in evs if k == 'CF']
+                u = [e for k, e in evs if k == 'U']
+                st = [e for k, e in evs if k == 'S']
+                if not cf or cf[0][1] != '1' or not u or not u[0].ret:
+                    out_txt = ''.join(bytes.fromhex(e[1]).decode('latin1') for k, e in evs if k == 'O' and len(e) > 1 and e[1] != '-')
+                    part.violation('debugger-refuses-emitted-spend', dict(witd, diagnostics=out_txt[-300:]))
+                    continue
+                if len(st) < m + 1 or not all(e.ret for e in st[:m + 1]) or st[m].tcei != -1:
+                    part.violation('debugger-commitment-check-rejects-emitted-proof', dict(witd, steps=[(e.ret, e.tcei) for e in st]))
+                    continue
+                part.count('debugger_commitment_checks', 'accepted')
         if len(outkeys) > 1:
             part.violation('leaves-commit-to-different-roots', dict(wit0, roots=[x.hex() for x in outkeys]))
         part.sample(dict(n=n, indices=len(idx_list), address=addr0, hrp=hrp), limit=1)
@@ -199,6 +231,10 @@ def tree_case(job):
                 continue
             part.count('sighash', kind + ':equal')
             sig = rsign.sign_schnorr(signer, want, 0)
+            if rng.random() < 0.4:
+                # a signature whose first byte is 0x50 is still a signature (an annex needs a second witness element)
+                sig = secp.schnorr_sign_nonce(signer, want, secp.nonce_with_first_byte(0x50, rng.choice([1, 300, 5000])))
+                part.count('signatures', 'first-byte-0x50')
             r2 = run_tap(tap, ['--sig=' + sig.hex()] + args, wd)
             if r2.abnormal or r2.rc != 0:
                 part.violation('sig-run:' + (r2.crash_key('tap') if r2.abnormal else 'fails'), dict(wit, run=r2.brief()))
